@@ -269,7 +269,7 @@ func (lineParser *LineParser) parseRawTextUpToAttributeClose(markerName string) 
 	}
 	remainderOfLine := string(rawRemainderOfLine)
 
-	closeTagMarkerRegexp, err := regexp.Compile(`\[\s*\/\s*({` + markerName + `})?\s*\]`)
+	closeTagMarkerRegexp, err := regexp.Compile(`\[\s*\/\s*(` + regexp.QuoteMeta(markerName) + `)?\s*\]`)
 	if err != nil {
 		return "", fmt.Errorf("failed to compile close tag marker regexp: %w", err)
 	}
